@@ -76,6 +76,9 @@ def shard(s):
             for unit in ("+", "-", "0", "+-", "+0-", "++--00"):
                 inner = (unit * (N // len(unit) + 1))[:N - 6]
                 _consume(acc, R.spell_rotating(ends + inner + ends[::-1], N), "rot")
+    elif kind == "DB":
+        for pat in spaces.window_complete_chunks(R.SYM, 6, s[1]):
+            _consume(acc, R.spell_rotating(pat, len(pat)), "rot")
     elif kind == "LONG":
         for pat in spaces.long_family(s[1]):
             _consume(acc, R.spell_rotating(pat, s[1]), "rot")
@@ -92,6 +95,7 @@ def run(tier, seed, t0):
     shards += [("R", N, 3) for N in range(RN, 4, -1)]
     LN = (64, 128, 200, 256) if tier == "quick" else (64, 127, 128, 129, 200, 256, 300, 400, 512, 700, 1000)
     shards += [("LONG", N) for N in LN]
+    shards += [("DB", (L_,)) for L_ in ((23, 47, 97) if tier == "quick" else (17, 23, 31, 47, 61, 97, 150, 301))]
     shards += [("ENDS", N) for N in ((1100,) if tier == "quick" else (1001, 1100, 1500))]
     SC = 300 if tier == "quick" else 600
     shards = [("SCAN", SC, "up"), ("SCAN", SC, "down")] + shards
